@@ -38,14 +38,19 @@ func (wb *WriteBuffer) Add(entry Entry) bool {
 	wb.entries = append(wb.entries, entry)
 	wb.currentSize += entry.Size()
 
-	return wb.currentSize >= wb.maxSize
+	return wb.currentSize >= wb.maxSize || len(wb.entries) >= maxEntriesPerBlock
 }
+
+// maxEntriesPerBlock is the largest entry count a block header can carry (16-bit field). A buffer
+// of many tiny entries reaches it long before a large maxSize; one entry more and the count would
+// wrap, and the reader would stop after count mod 65536 entries of the block.
+const maxEntriesPerBlock = 65535
 
 // ShouldFlush returns true if the buffer has reached its maximum size
 func (wb *WriteBuffer) ShouldFlush() bool {
 	wb.mu.Lock()
 	defer wb.mu.Unlock()
-	return wb.currentSize >= wb.maxSize
+	return wb.currentSize >= wb.maxSize || len(wb.entries) >= maxEntriesPerBlock
 }
 
 // IsEmpty returns true if the buffer has no entries
